@@ -916,8 +916,20 @@ def method(I, recv, name, args, e, env):
         if name == "replace":
             p = args[0] if isinstance(args[0], SStr) else SStr([args[0]])
             to = args[1] if isinstance(args[1], SStr) else SStr([args[1]])
+            if len(p) > 1:
+                # non-overlapping matches from the left, as str::replace does; every comparison may fork
+                out = SStr()
+                i, m = 0, len(p)
+                while i < len(recv):
+                    if i + m <= len(recv) and I.branch(And(*[sym.ceq(recv[i + d].c, p[d].c) for d in range(m)]), "replace"):
+                        out.extend(to)
+                        i += m
+                    else:
+                        out.append(recv[i])
+                        i += 1
+                return out
             if len(p) != 1:
-                raise Unsupported("replace with multi-char pattern")
+                raise Unsupported("replace with an empty pattern")
             out = SStr()
             for ch in recv:
                 if I.branch(sym.ceq(ch.c, p[0].c), "replace"):
